@@ -84,9 +84,21 @@ def defaults_instance():
         return {'d': B.given('d', np.zeros(1))}
 
     def call(inp):
-        return {s: pa.DHTVPermutationAlignment.from_stft_size(s).alignment_plan for s in (512, 1024)}
+        res = {s: pa.DHTVPermutationAlignment.from_stft_size(s).alignment_plan for s in (512, 1024)}
+        # the option of the shipped defaults reaches the aligner: metric stored and the score function in use is the one it names
+        opt = {}
+        for s in (512, 1024):
+            for metric in ('cos', 'euclidean', 'multiply'):
+                al = pa.DHTVPermutationAlignment.from_stft_size(s, similarity_metric=metric)
+                want = getattr(pa._ScoreMatrix, 'multiply' if metric == 'cos' else metric)
+                opt[(s, metric)] = (al.similarity_metric, getattr(al.get_score_matrix, '__func__', al.get_score_matrix) is getattr(want, '__func__', want),
+                                    al.alignment_plan == res[s])
+        res['options'] = opt
+        return res
 
     def ensures(sp, inp, out):
+        for (s, metric), (stored, same_fn, same_plan) in out.pop('options').items():
+            yield 'default-%d-forwards-similarity-metric[%s]' % (s, metric), sp._f(stored == metric and bool(same_fn) and bool(same_plan))
         for s, plan in out.items():
             F = s // 2 + 1
             covered = np.zeros(F, dtype=bool)
